@@ -15,6 +15,7 @@ import (
 type intEnv struct {
 	lens   map[ssa.Value]int64 // len(v) for slice-typed values
 	params map[ssa.Value]int64
+	globals map[string]int64 // package-level variable name -> value
 }
 
 func wrapToType(x int64, t types.Type) int64 {
@@ -49,6 +50,13 @@ func evalInt(v ssa.Value, env intEnv, d int) (int64, bool) {
 	switch x := v.(type) {
 	case *ssa.Const:
 		return constInt(x)
+	case *ssa.UnOp:
+		if g, ok := x.X.(*ssa.Global); ok && x.Op == token.MUL {
+			if k, ok := env.globals[g.Name()]; ok {
+				return k, true
+			}
+		}
+		return 0, false
 	case *ssa.Convert:
 		k, ok := evalInt(x.X, env, d+1)
 		if !ok {
